@@ -1156,6 +1156,11 @@ func (this *rolzCodec2) Forward(src, dst []byte) (uint, uint, error) {
 
 		// Next chunk
 		for srcIdx < sizeChunk {
+			if dstIdx >= len(src) {
+				// No compression possible anymore: stop before overrunning the output buffer
+				return uint(startChunk + srcIdx), uint(dstIdx), errors.New("ROLZX codec forward transform skip: no compression")
+			}
+
 			re.setContext(_ROLZ_LITERAL_CTX, buf[srcIdx-1])
 			var key uint32
 
